@@ -291,6 +291,7 @@ impl Server {
         let mut vfs = self.vfs.write().unwrap();
         #[cfg(feature = "verif")]
         crate::verif_hooks::point("main:holding_vfs_write");
+        vfs.set_open_document(path.clone(), text.to_string());
         let file_id = vfs.assign_or_get_file_id(path);
         let text = Arc::from(text);
         self.host.set_file_content(file_id, text);
